@@ -33,6 +33,9 @@ CLAIMED["C12"] = ("TLA+ Serde: RoundTripAllOrders (every small graph x every con
 CLAIMED["C13"] = ("TLA+ Serde: every small abstract document (repeated keys, undeclared endpoints, empty lists) enumerated by TLC with the outcome of Deser, checked against UntrustedOK; rendered as JSON and CBOR and deserialised by the real code under a watchdog; disagreements and seeded structural/byte-level mutations judged by TLC",
   "All documents with <=2 node entries / <=2 edge entries over 3 keys (thorough <=3/<=3) x 2 formats x 4 container types; 2 000 (thorough 50 000) mutated documents per flavour. Panic or hang is a rejected outcome.", "§4 C13")
 
+CLAIMED["C18"] = ("TLA+ Container (key->node map over objects incl. a duplicate-key object, Views, CStep, DotOK) : MapLaws model-checked; every (container state, operation) case TLC emits replayed on all four containers through handles handed out by the container; DOT exports of every state and seeded long histories judged event-by-event by TLC (TraceContainer)",
+  "All container states over 3 keys + 1 duplicate-key object x adjacency states with <=2 edges (thorough: 2 values, <=3 edges) x every operation; to_dot/to_dot_with_attr under the callback family {none,one,two attrs}^3; random histories over 6 keys + 2 duplicates.", "§4 C18")
+
 NOT_YET = {}
 props = [json.loads(l) for l in open(os.path.join(V, "properties.jsonl"))]
 checks = []
